@@ -179,6 +179,14 @@ func (l *Lab) SetHook(h func(point int, arg uint64)) {
 // KeyCost is the cost function used with CostFn "keycost": a function of the key only.
 func KeyCost(key int) int64 { return int64(1 + (key*7)%13) }
 
+// KeyCostSkew is a heavy-tailed fixed per-key cost: most keys cost 1, every seventh key costs 9..48.
+func KeyCostSkew(key int) int64 {
+	if key%7 == 3 {
+		return int64(9 + (key*13)%40)
+	}
+	return 1
+}
+
 func buildCache[K ristretto.Key](l *Lab, mk func(int) K, idx func(K) int) (Cachey, error) {
 	cfg := l.Cfg
 	conf := &ristretto.Config[K, uint64]{
